@@ -577,16 +577,14 @@ __make_ywd_ybd(unsigned int y, int yd)
 	j01 = __get_jan01_wday(y);
 	hang = __ywd_get_jan01_hang(j01);
 
-	/* compute weekday, decompose yd into 7p + q */
-	c = (yd + DUWW_BDAYS_P_WEEK - 1) / (signed int)DUWW_BDAYS_P_WEEK;
-	w = (yd + DUWW_BDAYS_P_WEEK - 1) % (signed int)DUWW_BDAYS_P_WEEK;
-	if ((w += j01) > (signed int)DUWW_BDAYS_P_WEEK) {
-		w -= DUWW_BDAYS_P_WEEK;
-		c++;
-	} else if (w < (signed int)DT_MONDAY) {
-		w += DUWW_BDAYS_P_WEEK;
-		c--;
-	}
+	/* the first business day of the year is J01 or the Monday after */
+	w = j01 <= DT_FRIDAY ? (signed int)j01 : (signed int)DT_MONDAY;
+	/* compute weekday, decompose yd into 5p + q counting from the
+	 * Monday of that first business day's week */
+	c = (yd + w - 2) / (signed int)DUWW_BDAYS_P_WEEK;
+	w = (yd + w - 2) % (signed int)DUWW_BDAYS_P_WEEK + DT_MONDAY;
+	/* that week is the first one unless the year starts on a Friday */
+	c += j01 != DT_FRIDAY;
 
 	/* fixup c (and y) */
 	canon_yc(y, c, hang);
